@@ -5,10 +5,10 @@ and about reading after a write through the other container.  Core Lean only.
 -/
 namespace FeatModel.LA
 
-/-- `LAFEM::CloneMode` (the four modes whose result is fully defined; `Allocate` leaves the index arrays
-    uninitialised) -/
+/-- `LAFEM::CloneMode`.  `Layout` leaves the new value arrays and `Allocate` all new arrays uninitialised; the
+    harness carries the content over before it looks, which is what the `dup*` functions yield. -/
 inductive CloneMode where
-  | shallow | layout | weak | deep
+  | shallow | layout | weak | deep | allocate
   deriving DecidableEq, Repr
 
 /-- the memory pool: value arrays and index arrays, addressed by id (= position) -/
@@ -53,7 +53,7 @@ def clone (h : Heap α) (c : Handle) : CloneMode → Heap α × Handle
   | .layout | .weak =>
     let (h1, vs) := h.dupVals c.vals
     (h1, ⟨vs, c.idxs⟩)
-  | .deep =>
+  | .deep | .allocate =>
     let (h1, is) := h.dupIdxs c.idxs
     let (h2, vs) := h1.dupVals c.vals
     (h2, ⟨vs, is⟩)
